@@ -1396,6 +1396,7 @@ stream_decode_mt(void *coder_ptr, const lzma_allocator *allocator,
 		// that can be used as is. We ensured this in the above
 		// if-block.
 		uint64_t mem_freed = 0;
+		struct worker_thread *thr_spared = NULL;
 		if (thr != NULL && mem_in_use + mem_cached
 				+ coder->outq.mem_in_use > mem_max) {
 			// Don't free the first Block decoder if its memory
@@ -1404,8 +1405,10 @@ stream_decode_mt(void *coder_ptr, const lzma_allocator *allocator,
 			// Blocks so this way the allocations can be reused
 			// when get_thread() picks the first worker_thread
 			// from the cache.
-			if (thr->mem_filters <= coder->mem_next_filters)
+			if (thr->mem_filters <= coder->mem_next_filters) {
+				thr_spared = thr;
 				thr = thr->next;
+			}
 
 			while (thr != NULL) {
 				lzma_next_end(&thr->block_decoder, allocator);
@@ -1448,6 +1451,23 @@ stream_decode_mt(void *coder_ptr, const lzma_allocator *allocator,
 		if (ret != LZMA_OK) {
 			threads_stop(coder);
 			return ret;
+		}
+
+		// The Block decoder of thr_spared was kept because get_thread()
+		// was expected to pick that thread. If another thread has
+		// finished in the meantime, it is at the top of the stack
+		// of free threads and got picked instead. Then the spared
+		// Block decoder would stay allocated in addition to the one
+		// that is about to be initialized, which could exceed
+		// memlimit_threading, so free it now.
+		if (thr_spared != NULL && coder->thr != thr_spared) {
+			lzma_next_end(&thr_spared->block_decoder, allocator);
+
+			mythread_sync(coder->mutex) {
+				coder->mem_cached -= thr_spared->mem_filters;
+			}
+
+			thr_spared->mem_filters = 0;
 		}
 
 		// The new Block decoder memory usage is already counted in
